@@ -400,9 +400,15 @@ def _origins(ix: Any, f: Any, e: ast.AST, callers: dict[str, list[Any]], depth: 
                 if isinstance(v, (ast.Tuple, ast.List)) and idx[0] < len(v.elts) and not any(isinstance(x, ast.Starred) for x in v.elts):
                     out += _origins(ix, f, v.elts[idx[0]], callers, depth - 1, unpack, stop)  # `a, b = x, y`
                 elif unpack:
-                    out.append((f, ast.copy_location(ast.Subscript(value=v, slice=ast.Constant(value=idx[0]), ctx=ast.Load()), v)))
+                    # the i-th item of what a private helper returns is the i-th item of each tuple it returns
+                    back = _returned(ix, f, v, idx[0], callers, depth - 1, stop)
+                    out += back if back is not None else [(f, ast.copy_location(ast.Subscript(value=v, slice=ast.Constant(value=idx[0]), ctx=ast.Load()), v))]
                 else:
                     return [(f, e)]
+                continue
+            back = _returned(ix, f, v, None, callers, depth - 1, stop) if unpack else None
+            if back is not None:
+                out += back
                 continue
             out += [(f, v)] if isinstance(v, ast.Name) and v.id == e.id else _origins(ix, f, v, callers, depth - 1, unpack, stop)
         return out
@@ -425,6 +431,34 @@ def _origins(ix: Any, f: Any, e: ast.AST, callers: dict[str, list[Any]], depth: 
                     return [(f, e)]
         return out or [(f, e)]
     return [(f, e)]
+
+
+def _returned(ix: Any, f: Any, v: ast.AST, idx: int | None, callers: dict[str, list[Any]], depth: int, stop: Any) -> list[tuple[Any, ast.AST]] | None:
+    """where the value of `<private helper of f>(...)` (its idx-th item, the helper returning tuple displays) is taken from: the origins,
+    inside the helper, of what each of its `return` statements returns.  None when v is not such a call or a return is not that plain."""
+    if not isinstance(v, ast.Call) or depth <= 0:
+        return None
+    h = _helper_called(ix, f, v, _helpers_of(ix, f))
+    if h is None or h.qual == f.qual:
+        return None
+    rets, todo = [], list(h.node.body)
+    while todo:
+        n = todo.pop()
+        if isinstance(n, ast.Return):
+            rets.append(n)
+        elif isinstance(n, (ast.Yield, ast.YieldFrom)):
+            return None
+        elif not isinstance(n, (ast.FunctionDef, ast.AsyncFunctionDef, ast.Lambda, ast.ClassDef)):
+            todo += list(ast.iter_child_nodes(n))
+    out: list[tuple[Any, ast.AST]] = []
+    for r in rets:
+        rv = r.value
+        if rv is not None and idx is not None:
+            rv = rv.elts[idx] if isinstance(rv, ast.Tuple) and idx < len(rv.elts) and not any(isinstance(x, ast.Starred) for x in rv.elts) else None
+        if rv is None:
+            return None
+        out += _origins(ix, h, rv, callers, depth, True, stop)
+    return out or None
 
 
 _NAME_CTORS = ("PythonIdentifier", "ClassName")  # (value, prefix, ...)
@@ -1098,10 +1132,26 @@ def _r164_tags(rep: Report, ix: Any, callers: dict[str, list[Any]]) -> None:
     # every collection of the operation receives the endpoint object itself: what is appended to `<collection>.endpoints` is the local that
     # holds the result of Endpoint.from_data, appended in a loop over all the collections (or all the tags - the value decided above) that
     # selects the collection by the loop variable and does not rebind the endpoint
-    def is_tags(fn: Any, v: ast.AST) -> bool:
-        return isinstance(v, ast.Name) and any(
-            k.arg == "tags" and isinstance(k.value, ast.Name) and k.value.id == v.id
-            for c in ast.walk(fn.node) if isinstance(c, ast.Call) and call_name(c).endswith("Endpoint.from_data") for k in c.keywords)
+    def is_tags(fn: Any, v: ast.AST, depth: int = 3) -> bool:
+        """the local is what Endpoint.from_data receives as `tags=`: handed to it in fn, or handed to a private helper of fn whose
+        parameter is"""
+        if not isinstance(v, ast.Name):
+            return False
+        helpers = None
+        for c in ast.walk(fn.node):
+            if not isinstance(c, ast.Call):
+                continue
+            if call_name(c).endswith("Endpoint.from_data"):
+                if any(k.arg == "tags" and isinstance(k.value, ast.Name) and k.value.id == v.id for k in c.keywords):
+                    return True
+            elif depth > 0 and any(isinstance(a, ast.Name) and a.id == v.id for a in [*c.args, *[k.value for k in c.keywords]]):
+                helpers = helpers if helpers is not None else _helpers_of(ix, fn)
+                h = _helper_called(ix, fn, c, helpers)
+                if h is not None and h.qual != fn.qual and any(
+                        isinstance(a, ast.Name) and a.id == v.id and p in _param_names(h) and is_tags(h, ast.Name(id=p, ctx=ast.Load()), depth - 1)
+                        for p, a in _bind_call(c, h).items()):
+                    return True
+        return False
 
     def all_collections(fn: Any, v: ast.AST) -> bool:
         """the tags themselves, or one collection per tag: `[<map>.setdefault(tag, ...) | <map>[tag] for tag in <tags>]`"""
